@@ -133,7 +133,11 @@ func Cacheability(w *world.World, raws []json.RawMessage) ([]interface{}, error)
 		r2 := w.DoCase("", "cc", c.M, "h", uri, nil, &c)
 		stored := r2.Label == "hit"
 		hits, asked := []int{}, []int{}
+		rangeProbe := reqObs{"none", 0, false, 0}
 		if stored {
+			// a conditional-free Range request for the stored key: whatever pike does with it, the label says the truth
+			rr := w.DoCase("", "cc", c.M, "h", uri, http.Header{"Range": []string{"bytes=0-3"}}, &c)
+			rangeProbe = reqObs{rr.Label, rr.Contacts, rr.Ver == r1.Ver, rr.Status}
 			probes := append([]int{}, c.Probes...)
 			sort.Ints(probes)
 			for _, p := range probes {
@@ -151,6 +155,7 @@ func Cacheability(w *world.World, raws []json.RawMessage) ([]interface{}, error)
 			"case": raw, "i": i, "stored": stored, "hits": hits, "asked": asked,
 			"first":  reqObs{r1.Label, r1.Contacts, true, r1.Status},
 			"second": reqObs{r2.Label, r2.Contacts, r2.Ver == r1.Ver && r1.Ver != 0, r2.Status},
+			"range":  rangeProbe,
 		})
 		w.TakeTrace()
 	}
